@@ -96,6 +96,13 @@ def lake_build(targets, keep_going=True):
         lock.close()
 
 
+def leanchecker(modules):
+    """independent replay of the compiled modules (and what they import) by the toolchain's re-checker"""
+    cmd = ["lake", "env", "leanchecker"] + list(modules)
+    rc, out = sh(cmd, cwd=LEAN, timeout=3000)
+    return rc == 0, out[-2000:], " ".join(cmd)
+
+
 _THM_RE = re.compile(r"^(?:@\[[^\]]*\]\s*)?theorem\s+([A-Za-z_][\w.']*)", re.M)
 
 
